@@ -29,6 +29,9 @@ import (
 //	handleJoinTree / rewriteOnCondition
 //	                         the Boolean expressions that decide whether the ON
 //	                         condition of a join may prune the route result
+//	getShardingCompareValue  the literal kinds whose value is handed to the rule,
+//	                         what the other kinds return, and per rule type the
+//	                         test after which a string is not routed by
 //
 // A changed case, operator, bound or condition changes a generated definition
 // and breaks the corresponding theorem.
@@ -551,5 +554,150 @@ func extractC01(repo string) ([]fact, error) {
 	}
 	facts = append(facts, fact{"c01OnInter", "Bool → Bool → Bool", "fun has prune => " + ic,
 		"proxy/plan/plan_select.go rewriteOnCondition: when the route result is intersected"})
+
+	// ---- getShardingCompareValue: the kinds handed to the rule, and per rule type the test
+	// after which a string is reported as not routable
+	fd, err = x.fn("getShardingCompareValue")
+	if err != nil {
+		return nil, err
+	}
+	var kinds []string
+	unrouted := ""
+	var strRules []string
+	notRoutable := func(st ast.Stmt) (string, bool) {
+		ret, ok := st.(*ast.ReturnStmt)
+		if !ok {
+			return "", false
+		}
+		return x.src(ret), true
+	}
+	for _, st := range fd.Body.List {
+		switch v := st.(type) {
+		case *ast.SwitchStmt:
+			if x.src(v.Tag) != "x.Kind()" {
+				return nil, fmt.Errorf("C01: getShardingCompareValue: unexpected switch on %q", x.src(v.Tag))
+			}
+			for _, c := range v.Body.List {
+				cc := c.(*ast.CaseClause)
+				if cc.List == nil {
+					if len(cc.Body) != 1 {
+						return nil, fmt.Errorf("C01: getShardingCompareValue: default of the kind switch is not a single return")
+					}
+					r, ok := notRoutable(cc.Body[0])
+					if !ok {
+						return nil, fmt.Errorf("C01: getShardingCompareValue: default of the kind switch is not a return")
+					}
+					unrouted = r
+					continue
+				}
+				if len(cc.Body) != 0 {
+					return nil, fmt.Errorf("C01: getShardingCompareValue: a kind case with statements")
+				}
+				for _, e := range cc.List {
+					se, ok := e.(*ast.SelectorExpr)
+					if !ok {
+						return nil, fmt.Errorf("C01: getShardingCompareValue: kind case %q", x.src(e))
+					}
+					kinds = append(kinds, se.Sel.Name)
+				}
+			}
+		case *ast.IfStmt:
+			if c01IsErrCheck(v) {
+				continue
+			}
+			// if s, ok := v.(string); ok { switch rule.GetType() { … } }
+			if x.src(v.Init) != "s, ok := v.(string)" || x.src(v.Cond) != "ok" || len(v.Body.List) != 1 {
+				return nil, fmt.Errorf("C01: getShardingCompareValue: unexpected if %q", x.src(v.Cond))
+			}
+			sw, ok := v.Body.List[0].(*ast.SwitchStmt)
+			if !ok || x.src(sw.Tag) != "rule.GetType()" {
+				return nil, fmt.Errorf("C01: getShardingCompareValue: switch rule.GetType() not found")
+			}
+			for _, c := range sw.Body.List {
+				cc := c.(*ast.CaseClause)
+				if cc.List == nil {
+					return nil, fmt.Errorf("C01: getShardingCompareValue: the rule-type switch has a default case")
+				}
+				var names []string
+				for _, e := range cc.List {
+					se, ok := e.(*ast.SelectorExpr)
+					if !ok {
+						return nil, fmt.Errorf("C01: getShardingCompareValue: rule type case %q", x.src(e))
+					}
+					names = append(names, c01LeanStr(se.Sel.Name))
+				}
+				if len(cc.Body) != 1 {
+					return nil, fmt.Errorf("C01: getShardingCompareValue: a rule-type case that is not a single if")
+				}
+				is, ok := cc.Body[0].(*ast.IfStmt)
+				if !ok || is.Else != nil || len(is.Body.List) != 1 {
+					return nil, fmt.Errorf("C01: getShardingCompareValue: a rule-type case that is not a single if")
+				}
+				r, ok := notRoutable(is.Body.List[0])
+				if !ok || r != "return nil, false, nil" {
+					return nil, fmt.Errorf("C01: getShardingCompareValue: the if of a rule-type case does not return nil, false, nil")
+				}
+				test := x.src(is.Cond)
+				if is.Init != nil {
+					test = x.src(is.Init) + "; " + test
+				}
+				strRules = append(strRules, "(["+strings.Join(names, ", ")+"], "+c01LeanStr(test)+")")
+			}
+		}
+	}
+	if len(kinds) == 0 || unrouted == "" || len(strRules) == 0 {
+		return nil, fmt.Errorf("C01: getShardingCompareValue: kind switch, its default or the rule-type switch not found")
+	}
+	last, ok := fd.Body.List[len(fd.Body.List)-1].(*ast.ReturnStmt)
+	if !ok {
+		return nil, fmt.Errorf("C01: getShardingCompareValue: does not end with a return")
+	}
+	facts = append(facts, fact{"c01RoutedKinds", "List String", c01LeanStrList(kinds),
+		"proxy/plan/plan_select.go getShardingCompareValue: the literal kinds whose value is handed to the rule"})
+	facts = append(facts, fact{"c01UnroutedKind", "String", c01LeanStr(unrouted),
+		"proxy/plan/plan_select.go getShardingCompareValue: what every other kind returns"})
+	facts = append(facts, fact{"c01StringRules", "List (List String × String)", "[" + strings.Join(strRules, ",\n  ") + "]",
+		"proxy/plan/plan_select.go getShardingCompareValue: per rule type, the test after which a string is reported as not routable"})
+	facts = append(facts, fact{"c01RoutedReturn", "String", c01LeanStr(x.src(last)),
+		"proxy/plan/plan_select.go getShardingCompareValue: the final return"})
+
+	// ---- the rule type constants: XRuleType = models.ShardY (proxy/router/rule.go), ShardY = "y" (models/shard.go)
+	shardVals := map[string]string{}
+	mf, err := parser.ParseFile(x.fset, filepath.Join(repo, "models", "shard.go"), nil, 0)
+	if err != nil {
+		return nil, fmt.Errorf("C01: %v", err)
+	}
+	ast.Inspect(mf, func(n ast.Node) bool {
+		if vs, ok := n.(*ast.ValueSpec); ok && len(vs.Names) == 1 && len(vs.Values) == 1 {
+			if bl, ok := vs.Values[0].(*ast.BasicLit); ok && bl.Kind == token.STRING {
+				if v, err := strconv.Unquote(bl.Value); err == nil {
+					shardVals[vs.Names[0].Name] = v
+				}
+			}
+		}
+		return true
+	})
+	rf, err := parser.ParseFile(x.fset, filepath.Join(repo, "proxy", "router", "rule.go"), nil, 0)
+	if err != nil {
+		return nil, fmt.Errorf("C01: %v", err)
+	}
+	var ruleTypes []string
+	ast.Inspect(rf, func(n ast.Node) bool {
+		if vs, ok := n.(*ast.ValueSpec); ok && len(vs.Names) == 1 && len(vs.Values) == 1 && strings.HasSuffix(vs.Names[0].Name, "RuleType") {
+			if se, ok := vs.Values[0].(*ast.SelectorExpr); ok {
+				if id, ok := se.X.(*ast.Ident); ok && id.Name == "models" {
+					if v, ok := shardVals[se.Sel.Name]; ok {
+						ruleTypes = append(ruleTypes, "("+c01LeanStr(vs.Names[0].Name)+", "+c01LeanStr(v)+")")
+					}
+				}
+			}
+		}
+		return true
+	})
+	if len(ruleTypes) == 0 {
+		return nil, fmt.Errorf("C01: the rule type constants of proxy/router/rule.go not found")
+	}
+	facts = append(facts, fact{"c01RuleTypes", "List (String × String)", "[" + strings.Join(ruleTypes, ", ") + "]",
+		"proxy/router/rule.go, models/shard.go: the rule type constants and the strings rule.GetType() answers with"})
 	return facts, nil
 }
